@@ -197,6 +197,22 @@ type NameOpts struct {
 	// treat as syntax at the ends of a name qualify (not blank, tab, colon, quote, dash, and not
 	// '#' at the start).
 	Edge string
+	// Invalid: a third of the names carry bytes that are not valid UTF-8 (a file saved as ISO-8859-1, a
+	// truncated multi-byte rune, a surrogate half); Names then also adds siblings that differ only in the
+	// invalid byte, or that have a rune above U+FFFD where the sibling has the invalid byte.
+	Invalid bool
+}
+
+var invalidSeqs = []string{"\xe9", "\xe8", "\xff", "\xf0", "\xc3", "\x80", "\xbd", "\xed\xa0\x80", "\xf4\x90\x80\x80", "\xe2\x82"}
+
+// withInvalid inserts an invalid byte sequence between two runes of s (never at the ends).
+func withInvalid(r *rand.Rand, s string) string {
+	rs := []rune(s)
+	if len(rs) < 2 {
+		return s
+	}
+	at := 1 + r.Intn(len(rs)-1)
+	return string(rs[:at]) + invalidSeqs[r.Intn(len(invalidSeqs))] + string(rs[at:])
 }
 
 // EdgePunct is the punctuation that is legitimate at either end of a name.
@@ -280,6 +296,26 @@ func Names(r *rand.Rand, n int, o NameOpts) []string {
 	var out []string
 	for len(out) < n {
 		s := Name(r, o)
+		if o.Invalid && r.Intn(3) == 0 {
+			s = withInvalid(r, s)
+			if r.Intn(2) == 0 && len(out)+2 < n {
+				// siblings: same text with another invalid byte / with a valid rune above U+FFFD in its place
+				rs := []rune(s) // the invalid bytes decode to U+FFFD one by one
+				_ = rs
+				for _, alt := range []string{"\xe8", "\U0001F375", "\xff"} {
+					for _, q := range invalidSeqs {
+						if i := strings.Index(s, q); i >= 0 && q != alt {
+							t := s[:i] + alt + s[i+len(q):]
+							if !seen[t] && len(out)+1 < n {
+								seen[t] = true
+								out = append(out, t)
+							}
+							break
+						}
+					}
+				}
+			}
+		}
 		if s == "h" || s == "help" {
 			// the CLI library gives every command a "help, h" sub-command; see DESIGN (finding D14)
 			continue
